@@ -121,10 +121,26 @@ impl<'a> RunWithPool<'a> for BNode {
     }
 }
 
+std::thread_local! {
+    /// build the nodes with the library's `par!` / `seq!` macros instead of `new` / `with`
+    pub static VIA_MACROS: std::cell::Cell<bool> = const { std::cell::Cell::new(false) };
+}
+
 fn make_par(mut c: Vec<BNode>) -> BNode {
     let n = c.len();
     let mut it = c.drain(..);
     let mut nx = || it.next().unwrap();
+    if VIA_MACROS.with(|v| v.get()) {
+        return match n {
+            1 => BNode(Box::new(shred::par![nx(),])),
+            2 => BNode(Box::new(shred::par![nx(), nx(),])),
+            3 => BNode(Box::new(shred::par![nx(), nx(), nx(),])),
+            4 => BNode(Box::new(shred::par![nx(), nx(), nx(), nx(),])),
+            5 => BNode(Box::new(shred::par![nx(), nx(), nx(), nx(), nx(),])),
+            6 => BNode(Box::new(shred::par![nx(), nx(), nx(), nx(), nx(), nx(),])),
+            n => panic!("harness: par fan-out {} not supported", n),
+        };
+    }
     match n {
         1 => BNode(Box::new(Par::new(nx()))),
         2 => BNode(Box::new(Par::new(nx()).with(nx()))),
@@ -140,6 +156,17 @@ fn make_seq(mut c: Vec<BNode>) -> BNode {
     let n = c.len();
     let mut it = c.drain(..);
     let mut nx = || it.next().unwrap();
+    if VIA_MACROS.with(|v| v.get()) {
+        return match n {
+            1 => BNode(Box::new(shred::seq![nx(),])),
+            2 => BNode(Box::new(shred::seq![nx(), nx(),])),
+            3 => BNode(Box::new(shred::seq![nx(), nx(), nx(),])),
+            4 => BNode(Box::new(shred::seq![nx(), nx(), nx(), nx(),])),
+            5 => BNode(Box::new(shred::seq![nx(), nx(), nx(), nx(), nx(),])),
+            6 => BNode(Box::new(shred::seq![nx(), nx(), nx(), nx(), nx(), nx(),])),
+            n => panic!("harness: seq fan-out {} not supported", n),
+        };
+    }
     match n {
         1 => BNode(Box::new(Seq::new(nx()))),
         2 => BNode(Box::new(Seq::new(nx()).with(nx()))),
@@ -766,6 +793,123 @@ fn ztriple<A: ZLeaf, B: ZLeaf, C: ZLeaf>(col: &mut Collector) -> (u64, u64) {
     (4, panics)
 }
 
+/// The `par!` / `seq!` macros build the same tree as `new` / `with`: every tree is built both ways and run inline
+/// (sequentially, deterministic); builds that panic, reported access, setup and run counters and the event order agree.
+pub fn macro_differential(ts: &[Tree], col: &mut Collector) -> u64 {
+    let was = rayon::verif::controlled();
+    rayon::verif::set_controlled(false);
+    let mut cases = 0;
+    for t in ts {
+        cases += 1;
+        VIA_MACROS.with(|v| v.set(false));
+        let a = run_tree(t, 0, 2);
+        VIA_MACROS.with(|v| v.set(true));
+        let b = run_tree(t, 0, 2);
+        VIA_MACROS.with(|v| v.set(false));
+        let key = |o: &TreeOut| {
+            let (mut r, mut w) = (o.root_reads.clone(), o.root_writes.clone());
+            r.sort();
+            r.dedup();
+            w.sort();
+            w.dedup();
+            (o.build_panic.is_some(), r, w, o.runs.clone(), o.setups.clone(), o.setups2.clone(), o.result.is_some(), o.values.clone(), o.log.iter().map(|e| (e.kind as u8, e.sys, e.dispatch)).collect::<Vec<_>>())
+        };
+        if key(&a) != key(&b) {
+            let what = if a.build_panic.is_some() != b.build_panic.is_some() {
+                format!("building panics: with/new {:?}, macros {:?}", a.build_panic, b.build_panic)
+            } else if a.runs != b.runs {
+                format!("run counters: with/new {:?}, macros {:?}", a.runs, b.runs)
+            } else {
+                "reported access, setup counters, final world or event order differ".to_string()
+            };
+            col.add(Finding {
+                prop: "C16".into(),
+                sig: "macro-built-tree-differs".into(),
+                msg: format!("tree {} built with par! / seq! behaves differently from the same tree built with new / with: {}", t.short(), what),
+                replay: json!({"kind":"tree-macro","tree":t.to_json()}),
+                size: t.leaves(),
+            });
+        }
+    }
+    rayon::verif::set_controlled(was);
+    cases
+}
+
+/// Leaves whose data types are DISTINCT types with the SAME `type_name` (items declared in two blocks of one
+/// function, as a macro expanded twice does): what a node reports and what `Par::with` rejects follows the types.
+fn same_name_sweep(col: &mut Collector) -> (u64, u64) {
+    macro_rules! twin_block {
+        () => {{
+            #[derive(Default)]
+            struct Twin(#[allow(dead_code)] u64);
+            struct TR;
+            struct TW;
+            impl<'a> shred::System<'a> for TR {
+                type SystemData = shred::Read<'a, Twin>;
+                fn run(&mut self, _: Self::SystemData) {}
+            }
+            impl<'a> shred::System<'a> for TW {
+                type SystemData = shred::Write<'a, Twin>;
+                fn run(&mut self, _: Self::SystemData) {}
+            }
+            let r: fn() -> BNode = || BNode(Box::new(TR));
+            let w: fn() -> BNode = || BNode(Box::new(TW));
+            (r, w, ResourceId::new::<Twin>(), std::any::type_name::<shred::Write<'static, Twin>>())
+        }};
+    }
+    let one = twin_block!();
+    let two = twin_block!();
+    if one.3 != two.3 || one.2 == two.2 {
+        col.add(Finding { prop: "MACHINERY".into(), sig: "same-name-sweep-vacuous".into(), msg: format!("the twin types are not same-named distinct types: {} / {}", one.3, two.3), replay: json!({"kind":"par-with-same-name"}), size: 1 });
+    }
+    // leaf = (constructor, resource, writes?)
+    let leaves: Vec<(fn() -> BNode, ResourceId, bool, &str)> = vec![(one.0, one.2.clone(), false, "Read<Twin#1>"), (one.1, one.2.clone(), true, "Write<Twin#1>"), (two.0, two.2.clone(), false, "Read<Twin#2>"), (two.1, two.2.clone(), true, "Write<Twin#2>")];
+    let (mut cases, mut panics) = (0u64, 0u64);
+    for a in &leaves {
+        for b in &leaves {
+            cases += 1;
+            let sq = Seq::new(a.0()).with(b.0());
+            let (mut rr, mut ww) = (Vec::new(), Vec::new());
+            RunWithPool::reads(&sq, &mut rr);
+            RunWithPool::writes(&sq, &mut ww);
+            for v in [&mut rr, &mut ww] {
+                v.sort();
+                v.dedup();
+            }
+            let mut er: Vec<ResourceId> = [a, b].iter().filter(|l| !l.2).map(|l| l.1.clone()).collect();
+            let mut ew: Vec<ResourceId> = [a, b].iter().filter(|l| l.2).map(|l| l.1.clone()).collect();
+            for v in [&mut er, &mut ew] {
+                v.sort();
+                v.dedup();
+            }
+            if rr != er || ww != ew {
+                col.add(Finding {
+                    prop: "C16".into(),
+                    sig: "root-access-not-union".into(),
+                    msg: format!("seq[{}, {}] (two distinct resource types with the same type name) reports reads {:?} / writes {:?}, the leaves' data access reads {:?} / writes {:?}", a.3, b.3, rr, ww, er, ew),
+                    replay: json!({"kind":"par-with-same-name","a":a.3,"b":b.3}),
+                    size: 2,
+                });
+            }
+            let r = catch_unwind(AssertUnwindSafe(|| {
+                let _ = Par::new(a.0()).with(b.0());
+            }));
+            panics += r.is_err() as u64;
+            let expect = a.1 == b.1 && (a.2 || b.2);
+            if r.is_err() != expect {
+                col.add(Finding {
+                    prop: "C16".into(),
+                    sig: if expect { "par-with-accepted-conflict".into() } else { "par-with-rejected-compatible-children".into() },
+                    msg: format!("Par::new({}).with({}) (two distinct resource types with the same type name) {} but the access sets {}", a.3, b.3, if r.is_err() { "panicked" } else { "did not panic" }, if expect { "conflict" } else { "are compatible" }),
+                    replay: json!({"kind":"par-with-same-name","a":a.3,"b":b.3}),
+                    size: 2,
+                });
+            }
+        }
+    }
+    (cases, panics)
+}
+
 fn zero_sized_sweep(col: &mut Collector) -> (u64, u64) {
     let (mut cases, mut panics) = (0, 0);
     for i in 0..27u32 {
@@ -904,6 +1048,9 @@ pub fn check_par_with(alpha: &[(Vec<u8>, Vec<u8>)], col: &mut Collector) -> (u64
                 StaticData::NamingThenProviding => mk!(SNamingThenProviding),
                 StaticData::GenReadA => mk!(SGenReadA),
                 StaticData::GenReadC => mk!(SGenReadC),
+                    StaticData::GenOverWriteC => mk!(SGenOverWriteC),
+                    StaticData::DerTupleAC => mk!(SDerTupleAC),
+                    StaticData::DerMacWriteC => mk!(SDerMacWriteC),
             }
         }
         let mask = |v: Vec<u8>| v.iter().fold(0u8, |m, x| m | 1 << x);
@@ -960,6 +1107,11 @@ pub fn check_par_with(alpha: &[(Vec<u8>, Vec<u8>)], col: &mut Collector) -> (u64
     }
     {
         let (x, y) = zero_sized_sweep(col);
+        cases += x;
+        panics += y;
+    }
+    {
+        let (x, y) = same_name_sweep(col);
         cases += x;
         panics += y;
     }
